@@ -28,6 +28,7 @@ from nix_manipulator.expressions.scope import ScopeLayer, ScopeState
 from nix_manipulator.expressions.set import _AttrpathEntry
 from nix_manipulator.parser import parse
 from nix_manipulator.resolution import (
+    attach_resolution_context,
     scopes_for_owner,
     set_resolution_context,
 )
@@ -321,6 +322,18 @@ def _resolve_npath(source: NixSourceCode, npath: str) -> _ResolvedNPath:
         attrpath_leaf=attrpath_leaf,
         attrpath_root=attrpath_root,
     )
+
+
+def _encode_npath(segments: Sequence[_NPathSegment]) -> str:
+    """Spell parsed segments as an NPath again (inverse of _parse_npath)."""
+    parts = []
+    for segment in segments:
+        if segment.quoted:
+            escaped = segment.name.replace("\\", "\\\\").replace('"', '\\"')
+            parts.append(f'"{escaped}"')
+        else:
+            parts.append(segment.name)
+    return ".".join(parts)
 
 
 def _find_binding(target_set: AttributeSet, key: str) -> Binding | None:
@@ -625,6 +638,24 @@ def _set_value_in_attrset(
         attrpath_leaf.value = value_expr
         return
 
+    if len(segments) > 1 and attrpath_root is None:
+        # Below an explicitly written set the rest of the path is an edit of
+        # *that* set, so its own attrpath families keep their recorded order.
+        head = _find_binding(target_set, segments[0])
+        if (
+            head is not None
+            and not head.nested
+            and isinstance(head.value, AttributeSet)
+        ):
+            attach_resolution_context(head.value, owner=target_set)
+            _set_value_in_attrset(
+                head.value,
+                _encode_npath(_parse_npath(npath)[1:]),
+                value_expr,
+                let_bindings=let_bindings,
+            )
+            return
+
     if len(segments) == 1:
         key = segments[0]
         if attrpath_root is not None:
@@ -707,6 +738,18 @@ def _remove_value_in_attrset(target_set: AttributeSet, npath: str) -> None:
     if attrpath_leaf is not None:
         _remove_attrpath_value(target_set, segments)
         return
+
+    if len(segments) > 1 and attrpath_root is None:
+        head = _find_binding(target_set, segments[0])
+        if (
+            head is not None
+            and not head.nested
+            and isinstance(head.value, AttributeSet)
+        ):
+            _remove_value_in_attrset(
+                head.value, _encode_npath(_parse_npath(npath)[1:])
+            )
+            return
 
     if len(segments) == 1:
         key = segments[0]
@@ -964,29 +1007,6 @@ def remove_value(source: NixSourceCode, npath: str) -> str:
             rebuilt = rebuilt.rstrip("\n")
         return rebuilt
 
-    resolution = _resolve_npath(source, npath)
-    target_set = resolution.target_set
-    segments = resolution.segments
-    if resolution.attrpath_leaf is not None:
-        _remove_attrpath_value(target_set, segments)
-        return source.rebuild()
-    if len(segments) == 1:
-        key = segments[0]
-        if resolution.attrpath_root is not None:
-            raise KeyError(key)
-        binding = _find_binding(target_set, key)
-        if binding is None:
-            raise KeyError(key)
-        del target_set[key]
-        return source.rebuild()
-    if resolution.attrpath_root is not None:
-        _remove_attrpath_value(target_set, segments)
-        return (
-            source.rebuild()
-        )  # pragma: no cover - attrpath branch covered in other tests
-    parent_set, final_key = _resolve_npath_parent(
-        target_set, npath, create_missing=False
-    )
-    del parent_set[final_key]
-    _prune_empty_attrpath_parents(target_set, segments[:-1])
+    target_set = _resolve_target_set(source)
+    _remove_value_in_attrset(target_set, npath)
     return source.rebuild()
